@@ -18,7 +18,7 @@ import (
 
 func init() {
 	Register(&Prop{
-		ID: "C16", Engine: "B", Quick: 30000, Thorough: 1000000, Level: "exploration",
+		ID: "C16", Engine: "B", AltEvery: 4, Quick: 30000, Thorough: 1000000, Level: "exploration",
 		Rule: "each history = one column of a drawn type/composition and a plain list-of-values model, driven through up to 12 (thorough: 30) drawn steps over {append rows (Append or AppendArr), overwrite a row in place, decode a 0..6-row block through proto.Results into the column as it stands, Reset, Prepare, EncodeColumn, WriteColumn+Flush, EncodeRawBlock, Infer(own type), Reset+DecodeColumn of valid data, Reset+DecodeColumn of a stream that fails at a drawn byte (cut or corrupted) followed by Reset}; the failing decode is the crash of this tiny store and Reset its recovery; after every encode step the bytes are decoded by the independent codec and must equal the model (same rows again when nothing changed, appended rows exactly once); after every Reset+Decode the column read through Row(i) must equal the decoded values and what a fresh column gives; distinct = distinct history digests; non-trivial = at least two encode/decode steps with a mutation in between",
 		Run:  runC16,
 	})
